@@ -46,8 +46,8 @@ CHECKS = {
    note="Trusted base as for C01 plus the reference closure."),
  "C12": dict(engine="progfuzz", level="exploration", design="4/C10-C12",
    technique="property-based differential testing of generated programs around a #[ds(trrel_uf)] relation against the reference evaluator with an explicit reflexive transitive closure",
-   text="As C10 for the trrel_uf provider, restricted by three open findings (KF-13, KF-14a, KF-14b, each with a committed failing replay): the tagged relation is filled from inputs only and, in the ternary form, read with the key bound; within that fragment every reader must see exactly the reflexive transitive closure, without panics.",
-   note="Trusted base as for C01 plus the reference closure. The excluded shapes (recursive feeding; key-free reads of the ternary form) are counted in the evidence and are exercised by the committed replays of the open findings."),
+   text="As C10 for the trrel_uf provider: chains, cycles that collapse classes, several keys, keys that pause and resume, elements first mentioned inside the recursive stratum; recursive and staged feeding; readers with every access pattern (with and without the key in the ternary form) must see exactly the reflexive transitive closure, without panics.",
+   note="Trusted base as for C01 plus the reference closure. Three defects found by this check (KF-13, KF-14a, KF-14b) were repaired in the repository; their committed replays run as regression cases in every run."),
  "C15": dict(engine="frontend", level="exploration", design="4/C15",
    technique="mutation-based property testing: one violation operator applied at a random site of generated well-formed programs, checked on the repository's macro pipeline compiled in-process and through real rustc diagnostics",
    text="Thousands of ill-formed variants (16 violation operators x random site x four macros) of generated well-formed programs are fed to the repository's own parse/desugar/HIR/MIR/codegen pipeline compiled as a library: it must return an error, never Ok, never panic, never loop; a seeded sample and every case the front end accepts go through real rustc, where each program must get an error diagnostic of its own and no 'proc macro panicked'. Conversely every well-formed base must be accepted.",
